@@ -365,6 +365,12 @@ func load(cmdline, environ, envprefix []string, props *properties.Properties) (c
 		return nil, fmt.Errorf("proxy.noroutestatus must be between 100 and 999")
 	}
 
+	// the glob cache is a fixed size ring: a size of zero or less makes the
+	// first lookup of a host pattern panic
+	if cfg.GlobCacheSize <= 0 {
+		return nil, fmt.Errorf("glob.cache.size must be greater than 0")
+	}
+
 	if cfg.Registry.Consul.AllowStale && cfg.Registry.Consul.RequireConsistent {
 		return nil, fmt.Errorf("registry.consul.allowStale and registry.consul.requireConsistent cannot both be true")
 	}
